@@ -91,6 +91,9 @@ def gen_graph(rng):
         L.add_metric(Metric(name="g_der", type="derived", sql="orders.rev * 2 + customers.cnt", filters=opt(["orders.status = 'a'"], 0.3)))
     if rng.random() < 0.5:
         L.add_metric(Metric(name="g_cum", type="cumulative", sql="orders.rev", grain_to_date=opt("month", 0.6), window=opt("3 days", 0.3)))
+    if diamond:
+        # a graph-level metric NAMED like a model-level metric of some model (customers.cnt): its own metric, exported and reloaded like any other
+        L.add_metric(Metric(name="cnt", type="derived", sql="orders.rev - orders.n"))
     if rng.random() < 0.5:
         L.graph.add_parameter(Parameter(name="p_status", type="string", default_value=opt("a", 0.7), allowed_values=opt(["a", "b"], 0.4)))
     return L
@@ -102,7 +105,8 @@ BATTERY = [dict(metrics=["orders.rev", "orders.n"], dimensions=["orders.status"]
            dict(metrics=["orders.ex"], dimensions=[]), dict(metrics=["g_sum"], dimensions=["orders.status"]), dict(metrics=["g_ratio", "g_der"], dimensions=[]), dict(metrics=["g_cum"], dimensions=["orders.created__day"]),
            dict(metrics=["orders.rev", "orders.n"], dimensions=["orders.status", "orders.created__month"], use_preaggregations=True), dict(metrics=["orders.rev"], dimensions=["tags.tag"]),
            dict(metrics=["orders.n"], dimensions=["orders.big", "orders.qty"]), dict(metrics=["orders.rev"], dimensions=[]),
-           dict(metrics=["orders.n"], dimensions=["regions.name"]), dict(metrics=["customers.cnt"], dimensions=["regions.name", "stores.kind"])]
+           dict(metrics=["orders.n"], dimensions=["regions.name"]), dict(metrics=["customers.cnt"], dimensions=["regions.name", "stores.kind"]),
+           dict(metrics=["cnt"], dimensions=["orders.status"])]
 
 
 def projection(L, rf):
